@@ -800,6 +800,94 @@ func (tr *gtTr) inside(saved []brkTarget, t brkTarget, f func() gnode) gnode {
 }
 
 func (tr *gtTr) switchStmt(x *ast.SwitchStmt, env *venv, next cont) gnode {
+	if n, ok := tr.joinSwitch(x, env, next); ok {
+		return n
+	}
+	return tr.switchStmtRaw(x, env, next)
+}
+
+// joinSwitch: like joinIf for a switch statement none of whose clauses can leave (fallthrough stays inside the switch
+// and is allowed; break, return, continue, goto, panic are not) and that assigns at least one variable visible outside:
+// the switch is an expression returning the tuple of those variables, and what follows it is translated once.
+func (tr *gtTr) joinSwitch(x *ast.SwitchStmt, env *venv, next cont) (gnode, bool) {
+	if !tr.st.joins || x.Init != nil {
+		return nil, false
+	}
+	if tr.leaves([]ast.Node{x.Body}, env, true) {
+		return nil, false
+	}
+	state, ok := tr.joinState([]ast.Node{x.Body}, env)
+	if !ok {
+		return nil, false
+	}
+	tupleK := tr.joinTuple(state)
+	inner := tr.switchStmtRaw(x, env.clone(), tupleK)
+	return tr.joinNode(inner, state, env, next), true
+}
+
+// leaves: can control leave one of these statements other than by falling out of its end?
+func (tr *gtTr) leaves(nodes []ast.Node, env *venv, allowFallthrough bool) bool {
+	leaves := false
+	for _, n := range nodes {
+		ast.Inspect(n, func(n ast.Node) bool {
+			switch y := n.(type) {
+			case *ast.BranchStmt:
+				if !(allowFallthrough && y.Tok == token.FALLTHROUGH) {
+					leaves = true
+				}
+			case *ast.ReturnStmt, *ast.LabeledStmt, *ast.FuncLit, *ast.GoStmt, *ast.DeferStmt:
+				leaves = true
+			case *ast.CallExpr:
+				if _, ok := tr.diverges(y, env); ok {
+					leaves = true
+				}
+				if isIdent(y.Fun, "panic") {
+					leaves = true
+				}
+			}
+			return !leaves
+		})
+	}
+	return leaves
+}
+
+// joinState: the variables visible outside that these statements assign, when all of them can be carried in a tuple
+func (tr *gtTr) joinState(nodes []ast.Node, env *venv) ([]stKey, bool) {
+	keys, _, _ := tr.assignedIn(nodes, env)
+	state := sortKeys(keys, env)
+	if len(state) == 0 {
+		return nil, false
+	}
+	for _, k := range state {
+		if _, t := tr.keyName(env, k); !t.supported() {
+			return nil, false
+		}
+	}
+	return state, true
+}
+
+func (tr *gtTr) joinTuple(state []stKey) cont {
+	return func(e *venv) gnode {
+		var names []string
+		for _, k := range state {
+			n, _ := tr.useKey(e, k)
+			names = append(names, n)
+		}
+		return &nTuple{names: names}
+	}
+}
+
+func (tr *gtTr) joinNode(inner gnode, state []stKey, env *venv, next cont) gnode {
+	var names []string
+	for _, k := range state {
+		n := tr.newName(k.base())
+		tr.setKeyName(env, k, n)
+		names = append(names, n)
+	}
+	return &nJoin{inner: inner, partial: nodePartial(inner), names: names, body: next(env)}
+}
+
+func (tr *gtTr) switchStmtRaw(x *ast.SwitchStmt, env *venv, next cont) gnode {
 	saved := tr.brk
 	next = tr.outside(saved, next)
 	return tr.scoped(env, next, func(e *venv, nx cont) gnode {
@@ -2044,53 +2132,18 @@ func (tr *gtTr) joinIf(x *ast.IfStmt, cond ex, env *venv, next cont) (gnode, boo
 	if !tr.st.joins {
 		return nil, false
 	}
-	leaves := false
-	var check func(n ast.Node)
-	check = func(n ast.Node) {
-		ast.Inspect(n, func(n ast.Node) bool {
-			switch y := n.(type) {
-			case *ast.ReturnStmt, *ast.BranchStmt, *ast.LabeledStmt, *ast.FuncLit, *ast.GoStmt, *ast.DeferStmt:
-				leaves = true
-			case *ast.CallExpr:
-				if _, ok := tr.diverges(y, env); ok {
-					leaves = true
-				}
-				if isIdent(y.Fun, "panic") {
-					leaves = true
-				}
-			}
-			return !leaves
-		})
-	}
-	check(x.Body)
-	if x.Else != nil {
-		check(x.Else)
-	}
-	if leaves {
-		return nil, false
-	}
 	nodes := []ast.Node{x.Body}
 	if x.Else != nil {
 		nodes = append(nodes, x.Else)
 	}
-	keys, _, _ := tr.assignedIn(nodes, env)
-	state := sortKeys(keys, env)
-	if len(state) == 0 {
+	if tr.leaves(nodes, env, false) {
 		return nil, false
 	}
-	for _, k := range state {
-		if _, t := tr.keyName(env, k); !t.supported() {
-			return nil, false
-		}
+	state, ok := tr.joinState(nodes, env)
+	if !ok {
+		return nil, false
 	}
-	tupleK := func(e *venv) gnode {
-		var names []string
-		for _, k := range state {
-			n, _ := tr.useKey(e, k)
-			names = append(names, n)
-		}
-		return &nTuple{names: names}
-	}
+	tupleK := tr.joinTuple(state)
 	a := tr.scoped(env.clone(), tupleK, func(e2 *venv, nx2 cont) gnode { return tr.block(x.Body.List, e2, nx2) })
 	var b gnode
 	if x.Else == nil {
@@ -2098,12 +2151,5 @@ func (tr *gtTr) joinIf(x *ast.IfStmt, cond ex, env *venv, next cont) (gnode, boo
 	} else {
 		b = tr.stmt(x.Else, env.clone(), tupleK)
 	}
-	inner := &nIf{cond: cond, a: a, b: b}
-	var names []string
-	for _, k := range state {
-		n := tr.newName(k.base())
-		tr.setKeyName(env, k, n)
-		names = append(names, n)
-	}
-	return &nJoin{inner: inner, partial: nodePartial(inner), names: names, body: next(env)}, true
+	return tr.joinNode(&nIf{cond: cond, a: a, b: b}, state, env, next), true
 }
